@@ -48,6 +48,9 @@ def plan(tier):
                 for lay in ([2, -1], [1, 3]):
                     for d in ('fwd', 'inv', 'fwd_bwd', 'inv_bwd'):
                         items.append({'fam': 'dtcwt', 'dir': d, 'biort': b, 'qshift': qs, 'shape': list(hw), 'J': J, 'layout': lay})
+                if J <= 2 and hw != (8, 8):
+                    for d in ('fwd', 'inv'):         # the level-1 zero-padding branch of the DTCWT
+                        items.append({'fam': 'dtcwt', 'dir': d, 'biort': b, 'qshift': qs, 'shape': list(hw), 'J': J, 'layout': [2, -1], 'mode': 'zero'})
     for it in items:
         it['ncmax'] = 3 if q else 4
     return items
@@ -60,7 +63,7 @@ def bounds(tier):
 
 def required_regimes(tier):
     return {'fam:dwt1d', 'fam:dwt2d', 'fam:swt', 'fam:dtcwt', 'dir:fwd', 'dir:inv', 'dir:fwd_bwd', 'dir:inv_bwd', 'zero', 'pairs', 'scales',
-            'slices', 'layout:nondefault', 'odd_size'}
+            'slices', 'layout:nondefault', 'odd_size', 'dtcwt:mode_zero'}
 
 
 # ---- transform descriptors: canon(tensor) puts (N, C) in front ------------------------------------------------------------
@@ -100,8 +103,8 @@ def _build(item):
     else:
         from pytorch_wavelets import DTCWTForward, DTCWTInverse
         o, r = item['layout']
-        F_ = DTCWTForward(biort=item['biort'], qshift=item['qshift'], J=J, o_dim=o, ri_dim=r)
-        I_ = DTCWTInverse(biort=item['biort'], qshift=item['qshift'], o_dim=o, ri_dim=r)
+        F_ = DTCWTForward(biort=item['biort'], qshift=item['qshift'], J=J, o_dim=o, ri_dim=r, mode=item.get('mode', 'symmetric'))
+        I_ = DTCWTInverse(biort=item['biort'], qshift=item['qshift'], o_dim=o, ri_dim=r, mode=item.get('mode', 'symmetric'))
         free = [d for d in range(6) if d != o % 6 and d != r % 6]
 
         def fwd(x):
@@ -174,6 +177,8 @@ def run(item):
         tags.append('layout:nondefault')
     if any(s % 2 for s in item['shape']):
         tags.append('odd_size')
+    if item['fam'] == 'dtcwt' and item.get('mode') == 'zero':
+        tags.append('dtcwt:mode_zero')
     res.state(common.sha(cfg))
 
     def apply(V):
